@@ -11,7 +11,15 @@ export OMP_NUM_THREADS=2 OPENBLAS_NUM_THREADS=2 MKL_NUM_THREADS=2
 PYTHONPATH=$WT /venv/bin/python $SD/demo.py > $SD/demo_clean.log 2>&1; RC_CLEAN=$?
 git apply $SD/patch.diff || { echo "patch does not apply" > $SD/confirm.txt; exit 2; }
 PYTHONPATH=$WT /venv/bin/python $SD/demo.py > $SD/demo_patched.log 2>&1; RC_PATCH=$?
-PYTHONPATH=$WT /venv/bin/python -m pytest -q -p no:cacheprovider --timeout=900 "$@" > $SD/suite_patched.log 2>&1; RC_SUITE=$?
+PYTHONPATH=$WT /venv/bin/python -m pytest -q -rfE -p no:cacheprovider --timeout=900 "$@" > $SD/suite_patched.log 2>&1; RC_SUITE=$?
+# tests that failed are re-run alone once (the notebook tests hit their 300 s kernel timeout when the machine is loaded)
+if [ $RC_SUITE -ne 0 ]; then
+  FAILED=$(grep -E "^(FAILED|ERROR) tests/" $SD/suite_patched.log | sed -E 's/^(FAILED|ERROR) ([^ ]+).*/\2/' | sort -u)
+  if [ -n "$FAILED" ]; then
+    PYTHONPATH=$WT OMP_NUM_THREADS=8 /venv/bin/python -m pytest -q -p no:cacheprovider --timeout=900 $FAILED > $SD/suite_patched_retry.log 2>&1; RC_SUITE=$?
+    echo "retry of failed tests alone: rc=$RC_SUITE ($FAILED)" >> $SD/suite_patched.log
+  fi
+fi
 echo "demo_clean_rc=$RC_CLEAN demo_patched_rc=$RC_PATCH suite_patched_rc=$RC_SUITE" > $SD/confirm.txt
-tail -n 3 $SD/suite_patched.log >> $SD/confirm.txt
+tail -n 4 $SD/suite_patched.log >> $SD/confirm.txt
 cd /; git -C /repo worktree remove --force $WT
